@@ -389,6 +389,13 @@ def gen_imports_tree(rng: random.Random) -> Dict[str, Any]:
     # star re-export
     files[f"{base}_starhub.py"] = f"from {base}_plain import *\nfrom {base}_all import *\n"
     objs += [(f"{base}_starhub", "plain_func"), (f"{base}_starhub", "shown_func")]
+    # a module that imports names and rebinds them further down (wrapped function, new constant):
+    # what it exports is the *last* binding, not the imported object
+    files[f"{base}_rebind.py"] = (
+        f"from {base}_plain import plain_func, PLAIN_CONST\n\n\ndef _wrap(func):\n    def inner(*args):\n        return func(*args)\n\n    return inner\n\n\n"
+        "plain_func = _wrap(plain_func)\nPLAIN_CONST = object()\n"
+    )
+    objs += [(f"{base}_rebind", "plain_func"), (f"{base}_rebind", "PLAIN_CONST")]
     # three star imports in a row in front of the defining module
     files[f"{base}_star3.py"] = "def far_func():\n    return 'far'\n\n\nFAR_CONST = object()\n"
     files[f"{base}_star2.py"] = f"from {base}_star3 import *\n"
@@ -406,7 +413,13 @@ def gen_imports_tree(rng: random.Random) -> Dict[str, Any]:
             late.append(f"def late_{c}_{len(late)}():\n    from {mod} import {name}\n    return {name}\n")
         n_imp = rng.randint(1, 5)
         star_used = False
-        for mod, name in rng.sample(objs, min(n_imp, len(objs))):
+        picked = rng.sample(objs, min(n_imp, len(objs)))
+        if rng.random() < 0.9:
+            # one source per bound name (two imports of one name from different modules shadow each other;
+            # that pattern is kept rare, it is known finding K6)
+            seen_n: Dict[str, str] = {}
+            picked = [(m, n) for m, n in picked if seen_n.setdefault(n, m) == m]
+        for mod, name in picked:
             form = rng.choice(["from", "from", "from_as", "import", "import_as", "star", "dup", "in_func", "stacked"])
             if mod.endswith(("_star1", "_star2")) and not star_used and rng.random() < 0.6:
                 form = "star"
@@ -518,6 +531,22 @@ def _exec_client_pair(arg: Tuple[Dict[str, str], str, str, str]) -> Dict[str, An
         except BaseException as e:  # noqa: BLE001
             return {"status": "after-raised", "detail": f"{type(e).__name__}: {e}"}
         tree_a = ast.parse(after_text)
+        # which names does the original module bind more than once through import statements, to
+        # different objects (explicit or through a star import)?  Re-ordering or narrowing such
+        # imports changes which binding wins: known finding K6
+        ns: Dict[str, Any] = {"__name__": "client_probe"}
+        shadowed = set()
+        for node in ast.parse(before_text).body:
+            if isinstance(node, (ast.Import, ast.ImportFrom)):
+                ids_before = {k: id(v) for k, v in ns.items()}
+                try:
+                    exec(compile(ast.Module(body=[node], type_ignores=[]), "<import>", "exec"), ns)
+                except BaseException:  # noqa: BLE001
+                    continue
+                for k, v in ns.items():
+                    if k in ids_before and ids_before[k] != id(v) and not k.startswith("__"):
+                        shadowed.add(k)
+        res["shadowed"] = sorted(shadowed)
         # the functions' return values: the objects the module's code actually reaches through its
         # names.  Definitions are matched by position (the tool may rename them outside safe mode).
         tree_b = ast.parse(before_text)
@@ -594,6 +623,8 @@ def imports_check(case: Dict[str, Any], run: Dict[str, Any], stats: C.Counter) -
         for p in res["problems"][:3]:
             viol = {"class": "import-rebinds-name", "detail": f"{rel}: {p}", "props": ["C18"]}
             key = _known_import_pattern(before, after, p)
+            if not key and res.get("shadowed") and ("other objects" in p or "another object" in p):
+                key = "e3:imports:same-name-imported-from-two-modules-reordered"
             if key:
                 viol["finding_key"] = key
             v.append(viol)
@@ -610,6 +641,22 @@ def _known_import_pattern(before: str, after: str, problem: str) -> Optional[str
     an import anywhere in the file as binding the name everywhere)."""
     import re
 
+    if "returns other objects" in problem or "bound to another object" in problem:
+        # K6: the same name imported at module level from two different modules: sorting the imports
+        # changes which binding comes last
+        try:
+            tb0 = ast.parse(before)
+        except SyntaxError:
+            return None
+        sources: Dict[str, Set[str]] = {}
+        for n in tb0.body:
+            if isinstance(n, ast.ImportFrom):
+                for a in n.names:
+                    if a.name != "*":
+                        sources.setdefault(a.asname or a.name, set()).add(n.module or "")
+        if any(len(v) > 1 for v in sources.values()):
+            return "e3:imports:same-name-imported-from-two-modules-reordered"
+        return None
     m = re.search(r"NameError: name '(\w+)' is not defined", problem)
     if not m:
         return None
